@@ -74,7 +74,7 @@ def snap(x, ctx):
         data = ctx.canon_circuit(x)
         bases = [[canon_maps(i.operation.basis, ctx), [repr(complex(c)) for c in i.operation.basis.coeffs]]
                  if isinstance(i.operation, BaseQPDGate) else None for i in x.data]
-        return ["qc", circuit_registers(x), data, bases, repr(x.global_phase)]
+        return ["qc", circuit_registers(x), data, bases, repr(x.global_phase), x.name, repr(x.metadata)]
     if isinstance(x, PauliList):
         return ["pl", [str(p) for p in x]]
     if isinstance(x, Pauli):
@@ -88,7 +88,7 @@ def snap(x, ctx):
     if isinstance(x, SamplerResult):
         return ["sr", [sorted((int(k), float(v)) for k, v in qd.items()) for qd in x.quasi_dists], repr(x.metadata)]
     if isinstance(x, PrimitiveResult):
-        return ["prim", len(x)]
+        return ["prim", [[[nm, v.array.tolist(), v.num_bits] for nm, v in sorted(pub.data.items())] for pub in x]]
     if isinstance(x, dict):
         return ["dict", [[tagged(k), snap(v, ctx)] for k, v in x.items()]]
     if isinstance(x, (list, tuple)):
@@ -224,7 +224,23 @@ G2 = {"cx": CXGate, "cz": CZGate, "swap": SwapGate, "ecr": ECRGate, "ch": CHGate
 P2 = {"rzz": RZZGate, "rxx": RXXGate, "ryy": RYYGate, "crx": CRXGate, "cry": CRYGate, "crz": CRZGate, "cp": CPhaseGate}
 G3 = {"ccx": CCXGate, "cswap": CSwapGate}
 from qiskit.circuit.library import C3XGate  # noqa: E402
-PARAM_GATES = set(P2)
+def _param_gates_from_source():
+    """the set literal `param_gates` inside _theta_from_instruction, read from the implementation's source, so that a
+    legitimately added parameter gate does not make the abstraction disagree"""
+    import ast
+    import inspect
+    import textwrap
+    try:
+        tree = ast.parse(textwrap.dedent(inspect.getsource(_theta_from_instruction)))
+        for node in ast.walk(tree):
+            if isinstance(node, ast.Assign) and any(isinstance(t, ast.Name) and t.id == "param_gates" for t in node.targets):
+                return set(ast.literal_eval(node.value))
+    except Exception:  # noqa: BLE001
+        pass
+    return set(P2)
+
+
+PARAM_GATES = _param_gates_from_source()
 
 
 def inst2():
@@ -250,6 +266,8 @@ def make_op(it):
     if k == "g2":
         return G2[it[1]]()
     if k == "p2":
+        if it[2] == "expr":
+            return P2[it[1]](2 * fresh_param() + 1)          # an unbound ParameterExpression
         return P2[it[1]](fresh_param() if it[2] is None else it[2][0] / it[2][1])
     if k == "u2":  # unregistered two-qubit gate (KAK path)
         return RZXGate(fresh_param() if it[1] is None else it[1][0] / it[1][1])
@@ -439,7 +457,8 @@ def offending_item(rng, cls, qs):
             return ["g4", qs]
         return pick(rng, [["g3", "ccx", qs], ["g3", "cswap", qs], ["inst3", qs]])
     if cls == "unbound":
-        return ["p2", list(P2)[int(rng.integers(0, len(P2)))], None, qs] if rng.integers(0, 3) else ["u2", None, qs]
+        return (["p2", list(P2)[int(rng.integers(0, len(P2)))], pick(rng, [None, None, "expr"]), qs]
+                if rng.integers(0, 3) else ["u2", None, qs])
     if cls == "unsupported":
         return ["inst2", qs]
     raise ValueError(cls)
@@ -920,7 +939,7 @@ class KCutGates:
             cls = pick(rng, ["valid", "valid", "classical_bits", "unbound", "unsupported", "unsupported", "undoc:index"])
             nq = int(rng.integers(2, 6))
             items = rand_items(rng, nq, None, n=int(rng.integers(2, 8)))
-            good = [k for k, it in enumerate(items) if it[0] in ("g2", "u2") or (it[0] == "p2" and it[2] is not None)]
+            good = [k for k, it in enumerate(items) if it[0] in ("g2", "u2") or (it[0] == "p2" and isinstance(it[2], list))]
             if not good:
                 items.append(["g2", "cx", [0, 1]])
                 good = [len(items) - 1]
@@ -1016,7 +1035,7 @@ class KPartitionProblem:
     def gen(self, rng, q):
         C = ["valid", "valid", "valid_auto", "valid_idle", "label_count", "observable_size", "observable_phase", "observable_phase",
              "classical_bits", "wide_gate", "unbound", "unsupported", "none_label_not_idle", "idle_explicit", "idle_auto",
-             "auto_plus_offence"]
+             "auto_plus_offence", "two_offences"]
         for _ in range(q(150)):
             cls0 = pick(rng, C)
             cls, nq, items, labels = gen_partition_case(rng, [cls0 if cls0 in ("wide_gate", "unbound", "unsupported", "label_count") else "valid"])
@@ -1026,7 +1045,7 @@ class KPartitionProblem:
             clbits = None
             if cls in ("valid_auto", "auto_plus_offence", "idle_auto"):
                 # automatic labels (connected components; untouched qubits get None)
-                items = [it for it in items if it[0] != "inst2" and not (it[0] == "p2" and it[2] is None)]
+                items = [it for it in items if it[0] != "inst2" and not (it[0] == "p2" and not isinstance(it[2], list))]
                 labels = None
                 used = {qq for it in items for qq in it[-1]}
                 idle = [k for k in range(nq) if k not in used]
@@ -1060,6 +1079,9 @@ class KPartitionProblem:
                     s_[int(pick(rng, none_q))] = pick(rng, ["X", "Y", "Z"])
                     obs[k][1] = "".join(reversed(s_))
                     aslist = bool(rng.integers(0, 3) == 0)
+            two = cls == "two_offences"
+            if two:
+                cls = "observable_phase"
             if cls in ("observable_size", "observable_phase") and obs is None:
                 obs = rand_obs(rng, nq, int(rng.integers(1, 5)))
             if cls == "observable_size":
@@ -1076,8 +1098,10 @@ class KPartitionProblem:
                 k = int(rng.integers(0, len(obs)))
                 obs[k][0] = int(rng.integers(1, 4))
                 aslist = bool(rng.integers(0, 4) == 0)
-            if cls == "classical_bits":
+            if cls == "classical_bits" or two:
                 clbits = pick(rng, ["creg", "loose", "empty_creg", "creg2"])
+            if two and rng.integers(0, 2):
+                labels = list(labels) + [labels[0]]                         # + a label count mismatch
             if cls == "none_label_not_idle":
                 used = sorted({qq for it in items for qq in it[-1]})
                 if not used:
@@ -1254,6 +1278,34 @@ class KGenerate:
             b = QPDBasis.from_instruction(CXGate())
             circuits.data.insert(m[1] % (len(circuits.data) + 1),
                                  CircuitInstruction(SingleQubitQPDGate(b, m[2], label=m[3]), [circuits.qubits[m[4] % nq]]))
+        elif m and m[0] == "phase":
+            # give a phase to the m[2]-th observable of subsystem m[1] (dict form) / of the PauliList
+            if isinstance(observables, dict):
+                key = list(observables)[m[1] % len(observables)]
+                ps = list(observables[key])
+                ps[m[2] % len(ps)].phase = m[3]
+                observables[key] = PauliList(ps)
+            else:
+                ps = list(obs)
+                ps[m[2] % len(ps)].phase = m[3]
+                obs = observables = PauliList(ps)
+        elif m and m[0] == "obs_size":
+            # widen/narrow the observables of subsystem m[1] (dict form) / the PauliList by m[2] qubits
+            def resize(pl, d):
+                n = max(1, pl.num_qubits + d)
+                n = n + 1 if n == pl.num_qubits else n
+                return PauliList(["Z" * n for _ in range(len(pl))])
+            if isinstance(observables, dict):
+                key = list(observables)[m[1] % len(observables)]
+                observables[key] = resize(observables[key], m[2])
+            else:
+                obs = observables = resize(obs, m[2])
+        elif m and m[0] == "obs_key":      # undocumented: observables has a label that circuits lacks
+            observables["zz_extra"] = PauliList(["Z"] * len(obs))
+        elif m and m[0] == "circ_key":     # undocumented: circuits has a label that observables lacks
+            k0 = list(observables)[m[1] % len(observables)]
+            if len(observables) > 1:
+                del observables[k0]
         cf, of = desc["cform"], desc["oform"]
         if cf == "dict" and not desc["sep"]:
             circuits = {"A": circuits}
@@ -1274,13 +1326,22 @@ class KGenerate:
         cf = "circuit" if isinstance(circuits, QuantumCircuit) else "dict" if isinstance(circuits, dict) else "other"
         of = "plist" if isinstance(observables, PauliList) else "dict" if isinstance(observables, dict) else "other"
         cs = [gen_kinds(circuits)] if cf == "circuit" else [gen_kinds(c) for c in circuits.values()] if cf == "dict" else []
-        a = dict(cform=cf, oform=of, n=desc["n"], circs=cs)
+        phases, tail = [], []
+        if cf == "dict" and of == "dict":
+            phases = [[int(p.phase) for p in v] for v in observables.values()]
+            tail = [[k in circuits, k in circuits and v.num_qubits == circuits[k].num_qubits] for k, v in observables.items()]
+        elif cf == "circuit" and of == "plist":
+            phases = [[int(p.phase) for p in observables]]
+            tail = [[True, observables.num_qubits == circuits.num_qubits]]
+        a = dict(cform=cf, oform=of, n=desc["n"], circs=cs, phases=phases, tail=tail)
         return a, observe(generate_cutting_experiments, [circuits, observables, n])
 
     def emit(self, a, impl):
         cf = {"circuit": "CCircuit", "dict": "CDict", "other": "COther"}[a["cform"]]
         of = {"plist": "OPauliList", "dict": "ODict", "other": "OOther"}[a["oform"]]
-        i = Raw(f"(mkGen {cf} {of} {c_budget(a['n']).s} {coq([[c_genkind(k) for k in c] for c in a['circs']])})")
+        ph = a["phases"] if a["cform"] == "dict" else []      # the model reads phases in the dictionary form only
+        i = Raw(f"(mkGen {cf} {of} {c_budget(a['n']).s} {coq([[c_genkind(k) for k in c] for c in a['circs']])} "
+                f"{coq([list(x) for x in ph])} {coq([(bool(x), bool(y)) for x, y in a['tail']])})")
         return (i, c_out(impl["outcome"]), impl["unchanged"])
 
     def classes(self, a):
@@ -1297,14 +1358,23 @@ class KGenerate:
             out.append("single_qubit_qpd_gate_unseparated")
         if a["cform"] == "dict" and any(k[0] == "q1" and not k[1] for c in a["circs"] for k in c):
             out.append("label_suffix")
+        if a["cform"] == "dict" and a["oform"] == "dict" and any(p != 0 for s_ in a["phases"] for p in s_):
+            out.append("observable_phase")       # (QuantumCircuit + phased PauliList: not documented here, phase dropped)
+        for haskey, sizeok in a["tail"]:
+            if not haskey:
+                break                            # KeyError territory (undocumented)
+            if not sizeok:
+                out.append("observable_size")
+                break
         return out
 
     def gen(self, rng, q):
         C = ["valid_sep", "valid_unsep", "form_circuit", "form_dict", "budget_lt1", "budget_nan", "q1_unsep", "label", "label",
-             "undoc:other_form"]
+             "undoc:other_form", "phase_dict", "undoc:phase_circuit", "obs_size", "obs_size", "undoc:obs_key", "undoc:circ_key"]
         for _ in range(q(110)):
             cls = pick(rng, C)
-            sep = cls in ("valid_sep", "label") or (cls in ("form_dict", "budget_lt1", "budget_nan", "undoc:other_form") and rng.integers(0, 2))
+            sep = cls in ("valid_sep", "label", "phase_dict", "undoc:obs_key", "undoc:circ_key") or (
+                cls in ("form_dict", "budget_lt1", "budget_nan", "undoc:other_form", "obs_size") and rng.integers(0, 2))
             nq = int(rng.integers(2, 5))
             n = pick(rng, [num(1), num(3), num(10), num(25, 2, True), ["inf"]])
             mutate = None
@@ -1345,6 +1415,14 @@ class KGenerate:
                 mutate = ["label", int(rng.integers(0, 50)), int(rng.integers(0, 50)), pick(rng, BAD_LABELS)]
             elif cls == "undoc:other_form":
                 d["cform"], d["oform"] = "other", "dict"
+            elif cls in ("phase_dict", "undoc:phase_circuit"):
+                mutate = ["phase", int(rng.integers(0, 50)), int(rng.integers(0, 50)), int(rng.integers(1, 4))]
+            elif cls == "obs_size":
+                mutate = ["obs_size", int(rng.integers(0, 50)), int(pick(rng, [-1, 1, 2]))]
+            elif cls == "undoc:obs_key":
+                mutate = ["obs_key"]
+            elif cls == "undoc:circ_key":
+                mutate = ["circ_key", int(rng.integers(0, 50))]
             d.update(nq=nq, items=items, obs=rand_obs(rng, nq, int(rng.integers(1, 3))), n=n, mutate=mutate)
             yield cls, d
 
@@ -1352,17 +1430,48 @@ class KGenerate:
 # --------------------------------------------------------------------------------------
 # reconstruct_expectation_values
 # --------------------------------------------------------------------------------------
-def fake_result(count):
+def fake_primitive(count, shots=2):
+    """a real SamplerV2 result with `count` pubs carrying the two registers reconstruct reads"""
+    from qiskit.primitives.containers import SamplerPubResult, DataBin, BitArray
+    pubs = []
+    for k in range(count):
+        arr = np.array([[k % 2]] * shots, dtype=np.uint8)
+        data = DataBin(observable_measurements=BitArray(arr.copy(), num_bits=1),
+                       qpd_measurements=BitArray(np.zeros((shots, 1), dtype=np.uint8), num_bits=1), shape=())
+        pubs.append(SamplerPubResult(data))
+    return PrimitiveResult(pubs)
+
+
+def fake_result(count, prim=False):
+    if prim:
+        return fake_primitive(count)
     return SamplerResult(quasi_dists=[QuasiDistribution({0: 0.75, 1: 0.25}) for _ in range(count)], metadata=[{} for _ in range(count)])
+
+
+def qwc_partition_ok(obs, groups):
+    """oracle contract for ObservableCollection: the groups partition the distinct observables and each group is
+    qubit-wise commuting (the NUMBER of groups is the grouping heuristic's choice, so it is taken from there)"""
+    want = {str(p) for p in obs}
+    got = [str(p) for g in groups for p in g.commuting_observables]
+    if set(got) != want or len(got) != len(set(got)):
+        return False
+    for g in groups:
+        ps = list(g.commuting_observables)
+        for k in range(obs.num_qubits):
+            letters = {(bool(p.x[k]), bool(p.z[k])) for p in ps} - {(False, False)}
+            if len(letters) > 1:
+                return False
+    return True
 
 
 @kind("reconstruct")
 class KReconstruct:
     checker = "chk_reconstruct"
+    contract_log = []
 
     def build(self, desc):
         obs = {untag(k): make_obs(v) for k, v in desc["obs"]}
-        results = {untag(k): fake_result(c) for k, c in desc["results"]}
+        results = {untag(r[0]): fake_result(r[1], prim=(len(r) > 2 and r[2] == "prim")) for r in desc["results"]}
         coefs = [(0.5 if i % 2 else -0.25, WeightType.EXACT) for i in range(desc["ncoef"])]
         of, rf = desc["oform"], desc["rform"]
         o = obs if of == "dict" else list(obs.values())[0] if of == "plist" else (list(list(obs.values())[0]) if of == "list" else None)
@@ -1381,7 +1490,10 @@ class KReconstruct:
             res = [r] if of == "plist" else [r[k] for k in o]
             for s, rr in zip(subs, res):
                 strip = PauliList([Pauli((p.z, p.x)) for p in s])     # phases dropped: only the grouping is needed
-                counts.append([len(rr.quasi_dists), len(ObservableCollection(strip).groups)])
+                groups = ObservableCollection(strip).groups
+                ok = qwc_partition_ok(strip, groups)
+                self.contract_log.append(ok)
+                counts.append([len(rr.quasi_dists) if isinstance(rr, SamplerResult) else len(rr), len(groups)])
         a = dict(oform=of, rform=rf, phases=phases, keys_match=bool(keys_match), ncoef=len(coefs), counts=counts)
         return a, observe(reconstruct_expectation_values, [r, coefs, o])
 
@@ -1447,6 +1559,10 @@ class KReconstruct:
                     results[j][1] = max(0, results[j][1] + int(pick(rng, [-1, 1, 2])))
                 else:
                     ncoef += 1
+            if cls in ("valid_dict", "valid_plist", "counts", "phase", "keys") and rng.integers(0, 3) == 0:
+                results = [[r[0], r[1], "prim"] for r in results]          # SamplerV2 PrimitiveResult
+            if d["rform"] == "dict" and len(results) > 1 and rng.integers(0, 2):
+                results = [results[i] for i in rng.permutation(len(results))]   # key order of results differs
             d.update(obs=obs, results=results, ncoef=ncoef)
             yield cls, d
 
@@ -1547,6 +1663,10 @@ class KDecompose:
         for _ in range(q(160)):
             cls = pick(rng, C)
             nq = int(rng.integers(2, 5))
+            if cls == "valid" and rng.integers(0, 8) == 0:      # nothing to decompose: empty instruction_ids
+                yield "valid", dict(nq=nq, items=[["g1", "h", [0]], ["g2", "cx", [0, 1]]], ids=[],
+                                    maps=pick(rng, [None, []]), inplace=bool(rng.integers(0, 2)))
+                continue
             items, groups = [], []
             for _k in range(int(rng.integers(1, 5))):
                 r = int(rng.integers(0, 4))
@@ -1888,8 +2008,20 @@ def generate(rng, tier, outdir):
             if docs and not impl["unchanged"]:
                 w.count("refusal_with_modified_argument", name)
             # the generator's intention and the independent classification must agree
-            w.contract("generator_class_is_documented_class",
-                       (cls.startswith("valid") or cls.startswith("undoc")) == (not docs))
+            intended_clean = cls.startswith("valid") or cls.startswith("undoc")
+            w.contract("generator_class_is_documented_class", intended_clean == (not docs))
+            # judge must accept every case of an unchanged tree.  A flagged case is excused only when the harness
+            # itself sees the implementation deviate on an input the GENERATOR made invalid on purpose
+            # (ValueError missing or an argument modified): that is a finding, reported through the model comparison.
+            v = judge(case)
+            harness_found = (not intended_clean) and (impl["outcome"] != "refused" or not impl["unchanged"])
+            w.contract("judge_accepts_clean_case", (not v["violates"]) or harness_found)
+            if v["violates"]:
+                w.count("judge_flagged", name)
+        if name == "reconstruct":
+            for ok in K.contract_log:
+                w.contract("observable_groups_are_qubitwise_commuting_partition", ok)
+            del K.contract_log[:]
     return w.finish(
         rule="per entry point: random otherwise-valid inputs (circuits on 1-5 qubits, 1-3 partition labels from a pool of hashables, "
              "1-4 observables, random budgets/limits incl. NaN and +-inf) with ONE offending element of a documented class at a random "
